@@ -2,7 +2,10 @@
 
 package vs
 
-import "fmt"
+import (
+	"fmt"
+	"reflect"
+)
 
 // Mutex replaces sync.Mutex; the zero value is an unlocked mutex.
 type Mutex struct {
@@ -98,3 +101,132 @@ func (w *WaitGroup) Wait() {
 	s.reschedule(t, false)
 	t.log("wgwait", w.lbl)
 }
+
+
+// ---------------------------------------------------------------- Once / RWMutex / atomics
+//
+// Built from the validated primitives (Mutex), so the dependency table needs no new entries.
+
+// Once replaces sync.Once: callers block until the first call's f has returned.
+type Once struct {
+	mu   Mutex
+	done bool
+}
+
+func (o *Once) Do(f func()) {
+	o.mu.Lock()
+	if o.done {
+		o.mu.Unlock()
+		return
+	}
+	defer o.mu.Unlock()
+	defer func() { o.done = true }()
+	f()
+}
+
+// RWMutex replaces sync.RWMutex (readers-preference construction from two mutexes: readers run
+// concurrently, a writer excludes everybody). Go's RWMutex additionally makes a WAITING writer
+// block new readers; deadlocks that need that rule (recursive read locking around a waiting
+// writer) are not modelled.
+type RWMutex struct {
+	w, r    Mutex
+	readers int
+}
+
+func (m *RWMutex) Lock()   { m.w.Lock() }
+func (m *RWMutex) Unlock() { m.w.Unlock() }
+func (m *RWMutex) RLock() {
+	m.r.Lock()
+	m.readers++
+	if m.readers == 1 {
+		m.w.Lock()
+	}
+	m.r.Unlock()
+}
+func (m *RWMutex) RUnlock() {
+	m.r.Lock()
+	m.readers--
+	if m.readers == 0 {
+		m.w.Unlock()
+	}
+	m.r.Unlock()
+}
+
+// atomicDo: an operation of sync/atomic on the variable at p is a scheduling point and
+// synchronises with every other atomic operation on that variable (a mutex per address).
+func atomicDo(p interface{}, f func()) {
+	s := Cur
+	if s == nil {
+		f()
+		return
+	}
+	if s.atom == nil {
+		s.atom = map[uintptr]*Mutex{}
+	}
+	k := reflect.ValueOf(p).Pointer()
+	m := s.atom[k]
+	if m == nil {
+		m = &Mutex{}
+		s.atom[k] = m
+		s.keep = append(s.keep, p)
+	}
+	m.Lock()
+	f()
+	m.Unlock()
+}
+
+type atomicInt interface {
+	~int32 | ~int64 | ~uint32 | ~uint64 | ~uintptr
+}
+
+func AtomicAdd[T atomicInt](p *T, d T) (r T) { atomicDo(p, func() { *p += d; r = *p }); return }
+func AtomicLoad[T any](p *T) (r T)           { atomicDo(p, func() { r = *p }); return }
+func AtomicStore[T any](p *T, v T)           { atomicDo(p, func() { *p = v }) }
+func AtomicSwap[T any](p *T, v T) (old T)    { atomicDo(p, func() { old = *p; *p = v }); return }
+func AtomicCAS[T comparable](p *T, old, nw T) (ok bool) {
+	atomicDo(p, func() {
+		if *p == old {
+			*p = nw
+			ok = true
+		}
+	})
+	return
+}
+
+// typed atomics (sync/atomic.Int32 ...)
+type AtomicNum[T atomicInt] struct{ v T }
+
+func (a *AtomicNum[T]) Load() T                       { return AtomicLoad(&a.v) }
+func (a *AtomicNum[T]) Store(v T)                     { AtomicStore(&a.v, v) }
+func (a *AtomicNum[T]) Add(d T) T                     { return AtomicAdd(&a.v, d) }
+func (a *AtomicNum[T]) Swap(v T) T                    { return AtomicSwap(&a.v, v) }
+func (a *AtomicNum[T]) CompareAndSwap(old, nw T) bool { return AtomicCAS(&a.v, old, nw) }
+
+type AtomicInt32 = AtomicNum[int32]
+type AtomicInt64 = AtomicNum[int64]
+type AtomicUint32 = AtomicNum[uint32]
+type AtomicUint64 = AtomicNum[uint64]
+type AtomicUintptr = AtomicNum[uintptr]
+
+type AtomicBool struct{ v bool }
+
+func (a *AtomicBool) Load() bool                       { return AtomicLoad(&a.v) }
+func (a *AtomicBool) Store(v bool)                     { AtomicStore(&a.v, v) }
+func (a *AtomicBool) Swap(v bool) bool                 { return AtomicSwap(&a.v, v) }
+func (a *AtomicBool) CompareAndSwap(old, nw bool) bool { return AtomicCAS(&a.v, old, nw) }
+
+type AtomicValue struct{ v interface{} }
+
+func (a *AtomicValue) Load() interface{}             { return AtomicLoad(&a.v) }
+func (a *AtomicValue) Store(v interface{})           { AtomicStore(&a.v, v) }
+func (a *AtomicValue) Swap(v interface{}) interface{} { return AtomicSwap(&a.v, v) }
+func (a *AtomicValue) CompareAndSwap(old, nw interface{}) bool {
+	return AtomicCAS(&a.v, old, nw)
+}
+
+type AtomicPointer[T any] struct{ v *T }
+
+func (a *AtomicPointer[T]) Load() *T                       { return AtomicLoad(&a.v) }
+func (a *AtomicPointer[T]) Store(v *T)                     { AtomicStore(&a.v, v) }
+func (a *AtomicPointer[T]) Swap(v *T) *T                   { return AtomicSwap(&a.v, v) }
+func (a *AtomicPointer[T]) CompareAndSwap(old, nw *T) bool { return AtomicCAS(&a.v, old, nw) }
